@@ -292,6 +292,22 @@ static std::string vm_invariants(VM &vm) {
   return "";
 }
 
+// rolling hash of the executed non-break instructions (C05: the instruction path)
+static unsigned long long g_trh = 0;
+static long g_trn = 0;
+static bool step_traced(VM &vm) {
+  int ip = vm.verifInstructionPointer();
+  const Program &p = vm.verifProgram();
+  if (ip >= 0 && ip < (int)p.code.size()) {
+    OpCode o = p.code[ip].op;
+    if (o != OpCode::POTENTIAL_BREAK && o != OpCode::BREAK && o != OpCode::HALT) {
+      g_trh = (unsigned long long)(((unsigned __int128)g_trh * 1000003ULL + (unsigned long long)ip * 31ULL + 7ULL) % 2305843009213693951ULL);
+      g_trn++;
+    }
+  }
+  return vm.executeSingle();
+}
+
 static void run_vm(Toks &tk) {
   Program p = read_program(tk);
   VM vm(p);
@@ -312,13 +328,27 @@ static void run_vm(Toks &tk) {
       printf("r=1 ");
     } else if (c == "R") {
       vm.reset();
+      g_trh = 0;
+      g_trn = 0;
       printf("r=1 ");
+    } else if (c == "P") {
+      // the instruction path: instruction pointers before each executed instruction, until HALT or cap
+      long cap = tk.num();
+      printf("path=");
+      for (long n = 0; n < cap; n++) {
+        int ip = vm.verifInstructionPointer();
+        printf("%d,", ip);
+        bool halted = vm.isDone();
+        step_traced(vm);
+        if (halted) break;
+      }
+      printf(" r=1 ");
     } else if (c == "X") {
       // execute(), emulated by single steps under a cap so that divergence is an observation (FUEL)
       long cap = tk.num();
       bool stopped = false;
       for (long n = 0; n < cap; n++)
-        if (vm.executeSingle()) { stopped = true; break; }
+        if (step_traced(vm)) { stopped = true; break; }
       if (!stopped) { printf("FUEL\n"); return; }
       printf("r=1 ");
     } else if (c == "XR") {
@@ -333,7 +363,7 @@ static void run_vm(Toks &tk) {
       long n = 0;
       size_t maxdata = 0, maxdepth = 0;
       for (; n < cap; n++) {
-        bool b = vm.executeSingle();
+        bool b = step_traced(vm);
         if (bad.empty()) {
           bad = vm_invariants(vm);
           if (!bad.empty()) bad += "@" + std::to_string(n);
@@ -347,14 +377,14 @@ static void run_vm(Toks &tk) {
       if (!stopped) { printf("FUEL\n"); return; }
       printf("r=1 ");
     } else if (c == "I") {
-      bool r = vm.executeSingle();
+      bool r = step_traced(vm);
       printf("r=%d ", r ? 1 : 0);
     } else {
       printf("BADCALL\n");
       return;
     }
     print_vm_state(vm);
-    printf(" | ");
+    printf(" tr=%ld:%llu | ", g_trn, g_trh);
   }
   printf("END\n");
 }
